@@ -57,6 +57,10 @@ def decompress():
 
             def on_next(i):
                 try:
+                    if len(i) == 0:
+                        # nothing to feed; zstandard refuses any call once the frame has ended
+                        observer.on_next(b'')
+                        return
                     data = decompressor.decompress(i)
                     observer.on_next(data)
                 except Exception as e:
